@@ -237,6 +237,12 @@ def syntax_strings(rng, n_random):
            "abc.[-1]", "abc.[ 1]", "abc.[1 ]", "abc.[1]\n", "abc\n", "abc\n\n", "abc\n.d", "abc.d\n", "abc d",
            "abc.d e", "abc.d/e", "ab", "a-b", "a_b", "---", "___", "0ab", "abc.-", "abc._", "abc.0", "abc.d.",
            "abc.[1].", "abc.\u00e9", "\u00e9bc", "abc.[1][2]", "abc.[1].[2]", "abc.d\t", "abc\r", "abc.[1]\r\n"]
+    # \d is any Unicode decimal digit; neighbours of the ranges and digit-like characters that are not Nd
+    for d in ("\u0661", "\u0669\u0660", "\u06f5", "\u0967", "\uff11", "\U0001d7ce", "\U0001d7ff", "\U0001e950", "\U0001fbf9",
+              "1\u0661", "\u0661" + "2", "\u00b2", "\u2460", "\u3007", "\u5341", "\u2170", "\u0bf0", "\u066a", "\u065f", "\u0670",
+              "\U0001d7cd", "\U0001d800", "/", ":", "\u0e50", "\u0e5a"):
+        out.append("abc.[%s]" % d)
+        out.append("abc.%s" % d)
     for n in (1, 2, 3, 4, 249, 250, 251, 252, 500):
         out.append("a" * n)
         out.append("abc." + "b" * n)
@@ -262,14 +268,20 @@ def syntax_strings(rng, n_random):
 
 def syntax_correspondence(run, cfg, n_random):
     strings = syntax_strings(run.rng, n_random)
-    res = common.run_impl("c07_impl", [{"kind": "syntax", "strings": strings}], procs=1)[0]["syntax"]
+    both = common.run_impl("c07_impl", [{"kind": "syntax", "strings": strings}, {"kind": "digits"}], procs=1)
+    res, digits = both[0]["syntax"], both[1]["digits"]
     terms = ["show_bool (selector_syntax_ok %s %s)" % (G.coq_cfg(cfg), common.coq_ustr(x)) for x in strings]
+    terms.append("show_nd_ranges")
     try:
         model = common.coq_eval_lines("c08s", HEADER, terms, shard=120)
     except RuntimeError as e:
         run.broken.append(Broken("correspondence", "model evaluation failed (selector syntax)", {"error": str(e)[-1500:]}))
         return
     dis = []
+    run.coverage["index_digit_code_points"] = sum(int(b) - int(a) + 1 for a, b in (r.split("-") for r in digits.split(",") if r))
+    if model[-1] != digits:
+        dis.append({"string": "(the set of code points accepted between the brackets of an index step)",
+                    "impl": digits[:300], "model": model[-1][:300]})
     for x, a, b in zip(strings, res, model):
         run.count({"syntax": x}, nontrivial=True)
         ia = "true" if a is True else ("false" if a is False else str(a))
@@ -373,7 +385,11 @@ def replay_disagreements(payload):
     for b in payload.get("no_longer_checks", []):
         print("no longer checks: %s %s" % (b.get("kind"), b.get("name")))
         for d in (b.get("detail") or {}).get("first", []) or []:
-            if "string" in d:
+            if "string" in d and d["string"].startswith("(the set of code points"):
+                got = common.run_impl("c07_impl", [{"kind": "digits"}], procs=1)[0]["digits"][:300]
+                print("  code points accepted as index digits: implementation=%s... model=%s..." % (got[:80], d["model"][:80]))
+                still += got != d["model"]
+            elif "string" in d:
                 got = common.run_impl("c07_impl", [{"kind": "syntax", "strings": [d["string"]]}], procs=1)[0]["syntax"][0]
                 got = "true" if got is True else ("false" if got is False else str(got))
                 print("  selector syntax of %r: implementation=%s model=%s" % (d["string"], got, d["model"]))
